@@ -7,7 +7,7 @@ def key_fn(case, obs, verdict):
     # sized <the same nine fields> <maxammosize> <pads> <sizes>
     f = case.split(" ")
     o = obs.split(" ")
-    if f[0] == "engine":
+    if f[0] in ("engine", "enginec"):
         return "engine:%s%s:run=%s" % (f[1], "+preload" if f[2] == "1" else "", o[2] if len(o) > 2 else "?")
     kind = f[1] + ("+preload" if f[2] == "1" else "")
     after = o[2] if len(o) > 2 else "?"
